@@ -964,6 +964,16 @@ DOC_VALUES = ["A", "ACTIVE", "ACT", "abc", "", "123", "5", "nan", "2024-02-29", 
               "AB", "ABC", "ACTI", "ACTIVATING", "DONE", "D", "B", "1", "10", 10, 100, 2, 20]
 
 
+# fixed schema #1: ENUM member sets with a member that is a proper prefix of another; instances hit every class
+ENUM_DOC_FIELDS = [("STATE", [("REQ",), ("ENUM", ["ACT", "ACTIVE", "DONE"])]), ("LEVEL", [("OPT",), ("ENUM", ["ABC", "A", "AB"])]),
+                   ("N", [("ENUM", [1, 10, 100]), ("TYPE", "NUMBER")])]
+ENUM_DOC_INSTANCES = [[("STATE", "ACT"), ("LEVEL", "A"), ("N", 1)], [("STATE", "ACTIVE"), ("LEVEL", "AB"), ("N", 10)],
+                      [("STATE", "ACTI"), ("LEVEL", "ABC"), ("N", 100)], [("STATE", "AC"), ("LEVEL", "B"), ("N", 2)],
+                      [("STATE", "DONE"), ("LEVEL", ""), ("N", 10)], [("STATE", "D"), ("LEVEL", "AB"), ("N", "1")],
+                      [("STATE", "ACT"), ("N", 1), ("N", 10)], [("LEVEL", "A"), ("STATE", "X"), ("STATE", "ACT")],
+                      [("STATE", "ACT")], [("STATE", "ACTIVEZ"), ("LEVEL", "a"), ("N", 1000)]]
+
+
 def schema_text(name, policy, fields):
     pol = "" if policy is None else "  UNKNOWN_FIELDS::%s\n" % policy
     body = "".join('  %s::["ex"∧%s→§SELF]\n' % (f, "∧".join(text_of(c) for c in ch)) for f, ch in fields)
@@ -1012,6 +1022,8 @@ def run_documents(ctx, have_model):
                 fields.append(("F%d" % fi, ch))
             if si == 0:   # the committed witness of C08-warn-invalid
                 policy, fields = "WARN", [("NAME", [("REQ",), ("TYPE", "STRING")])]
+            if si == 1:   # ENUM exact-match-over-prefix, at document level
+                policy, fields = "REJECT", ENUM_DOC_FIELDS
             with open(os.path.join(tmp, "specs", "schemas", name.lower() + ".oct.md"), "w") as f:
                 f.write(schema_text(name, policy, fields))
             sd = load_schema_by_name(name)
@@ -1037,6 +1049,8 @@ def run_documents(ctx, have_model):
                 rng.shuffle(assigns)
                 if si == 0 and ii == 0:
                     assigns = [("NAME", "bob"), ("EXTRA", 1)]
+                if si == 1:
+                    assigns = list(ENUM_DOC_INSTANCES[ii % len(ENUM_DOC_INSTANCES)])
                 itext = instance_text(name, assigns)
                 case = {"schema": schema_text(name, policy, fields), "instance": itext, "schema_name": name}
                 try:
